@@ -1,0 +1,14 @@
+//go:build verif
+
+package martian
+
+// VerifLiveContexts returns the number of live request-to-context
+// associations (the size of the process-wide table in context.go). It exists
+// only under the "verif" build tag and is used by the verification harness to
+// check that no context remains retrievable once exchanges have ended.
+func VerifLiveContexts() int {
+	ctxmu.RLock()
+	defer ctxmu.RUnlock()
+
+	return len(ctxs)
+}
